@@ -314,3 +314,39 @@ Qed.
 (* no index of the label tests is ever out of range *)
 Corollary interp_ahe_never_stuck fh host w e : interp_ahe fh host w e <> None.
 Proof. rewrite interp_ahe_is_model. discriminate. Qed.
+
+(* ====================================================================================== *)
+(* get_url_after_hostname / get_url_after_anchor (Generated.AfterGen)                      *)
+(* ====================================================================================== *)
+Import AfterGen.
+
+(* the two functions are matched literally by the translator (one spelling each); what is read off
+   the source are the constants: the scheme separator and how far behind it the authority starts,
+   the bytes that end the authority, the userinfo separator and the step over it.  The same
+   computation with the EXTRACTED constants: *)
+Definition interp_host_search_start (url : str) : nat :=
+  let authority_start := match find_sub scheme_sep url with
+                         | Some i => (i + N.to_nat scheme_sep_skip)%nat
+                         | None => N.to_nat no_scheme_start end in
+  let rest := drop authority_start url in
+  let authority_len := match find_first_of authority_terminators rest with
+                       | Some i => i
+                       | None => (length url - authority_start)%nat
+                       end in
+  match rfind_byte userinfo_sep (take authority_len rest) with
+  | Some i => (authority_start + i + N.to_nat userinfo_skip)%nat
+  | None => authority_start
+  end.
+Definition interp_get_url_after_anchor (url request_hostname : str) (anchor_end : nat) : str :=
+  if Nat.eqb anchor_end 0 then (if zero_anchor_is_whole_url then url else [])
+  else
+    let hss := interp_host_search_start url in
+    let rest := (length (get_url_after_hostname (drop hss url) request_hostname)
+                 + (length request_hostname - anchor_end))%nat in
+    if Nat.leb rest (length url) then drop (length url - rest) url else [].
+
+Theorem interp_host_search_start_is_model url : interp_host_search_start url = host_search_start url.
+Proof. reflexivity. Qed.
+Theorem interp_get_url_after_anchor_is_model url h a :
+  interp_get_url_after_anchor url h a = get_url_after_anchor url h a.
+Proof. reflexivity. Qed.
